@@ -203,6 +203,27 @@ pub fn check_tokens(src: &str) -> Result<(Vec<Tok>, Vec<&'static str>), String> 
     if !toks.is_empty() && prev_end == src.len() && !src.ends_with('\n') {
         labels.push("token_at_eof");
     }
+    // the comment-skipping view (what the parser reads) is the plain token stream without its comments: same tokens,
+    // same order, same places
+    {
+        let plain: Vec<(String, usize, usize)> = Lexer::new(src)
+            .filter(|t| !t.is_comment())
+            .map(|t| (format!("{:?}", t.id), t.spelling.as_ptr() as usize - base, t.spelling.len()))
+            .collect();
+        let skipping: Vec<(String, usize, usize)> =
+            Lexer::new(src).skip_comments().take(4 * src.len() + 16).map(|t| (format!("{:?}", t.id), t.spelling.as_ptr() as usize - base, t.spelling.len())).collect();
+        if plain != skipping {
+            let k = plain.iter().zip(skipping.iter()).position(|(a, b)| a != b).unwrap_or(plain.len().min(skipping.len()));
+            return Err(format!(
+                "the comment-skipping lexer is not the token stream without its comments: token #{} is {:?} there and {:?} in the plain stream ({} vs {} tokens)",
+                k,
+                skipping.get(k),
+                plain.get(k),
+                skipping.len(),
+                plain.len()
+            ));
+        }
+    }
     Ok((toks, labels))
 }
 
